@@ -347,6 +347,17 @@ func (jenny RawTypes) genDefaultForType(t ast.Type, value any) string {
 		if value == nil {
 			return "List.of()"
 		}
+		// the items of a list of objects, of lists, … are written one by one (the scalar
+		// formatter does it itself for a list of scalars)
+		if items, isList := value.([]any); isList && !t.AsArray().ValueType.IsScalar() {
+			formatted := make([]string, 0, len(items))
+			for _, item := range items {
+				formatted = append(formatted, jenny.genDefaultForType(t.AsArray().ValueType, item))
+			}
+
+			return fmt.Sprintf("List.of(%s)", strings.Join(formatted, ", "))
+		}
+
 		return fmt.Sprintf("List.of(%s)", jenny.genDefaultForType(t.AsArray().ValueType, value))
 	}
 
